@@ -193,7 +193,7 @@ void rows_phase(World& w, const Task& t, int k, int64_t from, Sub& sub, Emitter&
                 std::string bad;
                 for (auto& kv : gf)
                 {
-                    if (!supported(kv.first, t.schema)) { if (kv.second.rfind("!throws", 0) != 0) bad += kv.first + " (unsupported column, getter did not throw); "; continue; }
+                    if (!supported(kv.first, t.schema)) continue;  // a column this schema does not have: the statement says nothing about its accessors
                     if (kv.second != rf[kv.first]) bad += kv.first + ": getter " + trunc(kv.second, 40) + " vs row " + trunc(rf[kv.first], 40) + "; ";
                 }
                 if (!bad.empty()) a.violation("track_row|getter_differs_from_row", "[" + sn + "] after " + how + "() of {" + desc + "}: " + trunc(bad, 300), cid);
@@ -251,7 +251,11 @@ void columns_phase(World& w, const Task& t, int64_t from, Sub& sub, Emitter& em,
                     try { F[f].set(tt, A, vi); } catch (const std::exception& e) { threw = true; what = exname(e) + ": " + e.what(); }
                     if (!supported(F[f].name, t.schema))
                     {
-                        if (!threw) a.violation("column|" + F[f].name + "|unsupported_column_setter_accepted", "[" + sn + "] set_" + F[f].name + " did not throw on a schema without that column", cid);
+                        // a column this schema does not have: whatever the accessor does, no stored column may change
+                        auto afterA = row_facts(*tt.get(A)), afterB = row_facts(*tt.get(B));
+                        afterA.erase("last_edit_time"); beforeA.erase("last_edit_time"); afterB.erase("last_edit_time"); beforeB.erase("last_edit_time");
+                        afterA.erase(F[f].name); beforeA.erase(F[f].name);
+                        if (afterA != beforeA || afterB != beforeB) a.violation("column|" + F[f].name + "|unsupported_column_setter_changed_row", "[" + sn + "] set_" + F[f].name + " on a schema without that column changed a stored column", cid);
                         else a.count("validated");
                     }
                     else if (threw)
